@@ -170,7 +170,7 @@ MODELS = {
 }
 
 
-def sequences(F, fn, args, extra_models=None, max_paths=256):
+def sequences(F, fn, args, extra_models=None, max_paths=8192):
     """[(sequence items, assumptions, kind)] for every path of fn(args) that returns Ok(seq)."""
     models = dict(absint.DEFAULT_MODELS)
     models.update(MODELS)
